@@ -127,13 +127,13 @@ def run(ctx, model=None):
     N = 300 if ctx.quick() else 8000
     for k in range(N):
         r = k % 6
-        g = gen.stopping_game(rng) if r in (0, 1) else gen.free_game(rng) if r in (2, 3) else \
+        g = gen.stopping_game(rng, extra_finals=0.25) if r in (0, 1) else gen.free_game(rng) if r in (2, 3) else \
             gen.slow_cycle_game(rng) if r == 4 else tie_game(rng)
         check_case(ctx, g, model)
         if ctx.time_left() < 0:
             return
     for k in range(10 if ctx.quick() else 200):
-        check_case(ctx, gen.stopping_game(rng), model, thr=10 ** (-rng.choice([2, 3, 4, 8])))
+        check_case(ctx, gen.stopping_game(rng, extra_finals=0.25), model, thr=10 ** (-rng.choice([2, 3, 4, 8])))
 
 
 def known_findings(ctx):
